@@ -278,6 +278,10 @@ def run_stream(ctx, modname, seeds, extra=None, use_model=True, procs=14):
         for k in nontriv:
             ctx.nontrivial(json.dumps(k, sort_keys=True))
         for s in samples:
+            if isinstance(s, dict) and "case_timeout" in s:
+                ctx.notes.append("case over its time budget: " + json.dumps(s["case_timeout"]))
+                print("CASE-TIMEOUT", modname, json.dumps(s["case_timeout"]), flush=True)
+                continue
             if isinstance(s, dict) and "harness_exception" in s:
                 harness_exc += 1
                 if harness_exc <= 2:
